@@ -140,6 +140,8 @@ func lineNet(t *testing.T) (mocknet.Mocknet, []libhost.Host) {
 }
 
 func runSubscriberGroup(t *testing.T, group []map[string]any, withVerifier, metrics bool, tw, rw *mbt.Writer) {
+	// in the metrics group the verifier is registered BEFORE the Subscriber is started (a Syncer started first does that)
+	verifierFirst := withVerifier && metrics
 	synctest.Test(t, func(t *testing.T) {
 		ctx, cancel := context.WithCancel(context.Background())
 		net, hosts := lineNet(t)
@@ -165,11 +167,14 @@ func runSubscriberGroup(t *testing.T, group []map[string]any, withVerifier, metr
 		if err != nil {
 			t.Fatal(err)
 		}
-		if err := sub.Start(ctx); err != nil {
-			t.Fatal(err)
-		}
 		var curKind string
 		var crashed bool
+		stuck := 0 // local Broadcasts that did not return
+		if !verifierFirst {
+			if err := sub.Start(ctx); err != nil {
+				t.Fatal(err)
+			}
+		}
 		if withVerifier {
 			_ = sub.SetVerifier(func(ctx context.Context, h *vh.Header) error {
 				_ = h.Hash() // as the Syncer's verifier does (it logs the hash): whatever a header memoises is computed here
@@ -178,6 +183,11 @@ func runSubscriberGroup(t *testing.T, group []map[string]any, withVerifier, metr
 				}
 				return verifierErr(curKind)
 			})
+		}
+		if verifierFirst {
+			if err := sub.Start(ctx); err != nil {
+				t.Fatal(err)
+			}
 		}
 		subscription, err := sub.Subscribe()
 		if err != nil {
@@ -241,6 +251,9 @@ func runSubscriberGroup(t *testing.T, group []map[string]any, withVerifier, metr
 			case "valid", "local":
 			case "invalid", "localInvalid":
 				hdr.Invalid = true
+				if mbt.Bool(in, "softErr") { // replay-only: the header type reports its own failure as a soft VerifyError
+					hdr.InvalidSoft = true
+				}
 			case "decodepanic":
 				hdr.DecodePanic = true
 			}
@@ -248,6 +261,11 @@ func runSubscriberGroup(t *testing.T, group []map[string]any, withVerifier, metr
 			switch payload {
 			case "undecodable":
 				data = []byte(fmt.Sprintf("\x00\x01garbage-%d{{{", id))
+				if mbt.Bool(in, "softErr") { // replay-only: bytes that the header type refuses to decode with a soft VerifyError
+					bad := chain.At(uint64(gi + 2)).Clone()
+					bad.DecodeSoft = true
+					data, _ = bad.MarshalBinary()
+				}
 			case "empty":
 				data = []byte{}
 			}
@@ -260,9 +278,22 @@ func runSubscriberGroup(t *testing.T, group []map[string]any, withVerifier, metr
 					}
 				}()
 				if payload == "local" || payload == "localInvalid" {
-					bctx, bcancel := context.WithTimeout(ctx, 5*time.Second)
-					err := sub.Broadcast(bctx, hdr)
-					bcancel()
+					// (gossipsub validates a local message under its own context: a Broadcast that waits for a verifier that
+					// is never registered returns only when the node shuts down — it must not take the driver with it)
+					bdone := make(chan error, 1)
+					go func() {
+						bctx, bcancel := context.WithTimeout(ctx, 5*time.Second)
+						defer bcancel()
+						bdone <- sub.Broadcast(bctx, hdr)
+					}()
+					var err error
+					select {
+					case err = <-bdone:
+					case <-time.After(30 * time.Second):
+						obs.Verdict, obs.Reason = "none", "Broadcast did not return within 30 s"
+						stuck++
+						return
+					}
 					if err == nil {
 						obs.Verdict = "accept"
 					} else if errors.Is(err, pubsub.ValidationError{Reason: pubsub.RejectValidationIgnored}) || err.Error() == pubsub.RejectValidationIgnored {
@@ -307,6 +338,13 @@ func runSubscriberGroup(t *testing.T, group []map[string]any, withVerifier, metr
 			rw.Put(res)
 		}
 		subscription.Cancel()
+		// (Stop closes the topic, which waits for a local Broadcast that is still being validated: if one is stuck waiting
+		// for a verifier, the node's context has to end first)
+		if stuck > 0 {
+			cancel()
+			time.Sleep(time.Second)
+			synctest.Wait()
+		}
 		_ = sub.Stop(ctx)
 		cancel()
 		_ = net.Close()
